@@ -1,4 +1,4 @@
 SPECIFICATION Spec
-CONSTANT Full = TRUE
+CONSTANT Full = FALSE
 CHECK_DEADLOCK FALSE
 INVARIANT AllClauses
